@@ -61,6 +61,8 @@ FAMILY = {
         _sk(pre=[], effs=[2, 9, 3], effcond=6, n_bounds="upper", goal=[5]),
         _sk(pre=[], effs=[4, 12], n_bounds="both", goal=[5], values=dict(V1, c1=9)),
         _sk(pre=[], effs=[3, 12], n_bounds="lower", goal=[0], values=V2),
+        _sk(pre=[], effs=[22, 12], n_bounds="both", goal=[0], second_action=[23], pre2=[]),   # bounded fluent WITH a parameter
+        _sk(pre=[17], effs=[22], n_bounds="upper", goal=[2], second_action=[10], pre2=[17]),
     ],
     "state_invariants": [
         _sk(pre=[], effs=[0, 1], effcond=2, inv=[1], goal=[0]),
